@@ -3,11 +3,11 @@ C11 -- Verbatim text and mathematics pass through character-for-character.
 Engine E1, two exhaustive families:
  (a) every verbatim body (string of symbols over the design alphabet) up to a length bound as content of
      verbatim, verbatim* and \\verb<d>...<d>;
- (b) every formula tree of a math grammar up to a depth bound in five contexts; the reconstructed LaTeX source
+ (b) every formula tree of a math grammar up to a depth bound in six contexts; the reconstructed LaTeX source
      (node.source / node.mathjax_source) is re-tokenized with the C01 reference lexer and compared with the
      tokens of the printed formula (user macro expanded on the AST), blanks dropped.
 """
-import itertools
+import itertools, re
 from vp import core, state
 from vp.refs import tex_lexer as LX
 
@@ -32,14 +32,15 @@ RED8 = ['\\', '{', '}', '%', ' ', '\n', '-', 'e']
 
 def symbols(env, alpha):
     """alphabet: 'full' = 16 characters + 4 composite symbols (partial end markers of `env`, ^^M);
-    'red' = 8 characters + the same 4 composites; 'endcmd' = full + the command form of the end marker"""
+    'red' = 8 characters + the same 4 composites; 'ext' = full + the end marker without its escape character + the
+    command form of the end marker"""
     comp = ['\\end', '\\end{' + env, '\\end{' + env[:-1] + '}', '^^M']
     if alpha == 'full':
         return SYM16 + comp
     if alpha == 'red':
         return RED8 + comp
-    if alpha == 'endcmd':
-        return SYM16 + comp + ['\\end' + env]
+    if alpha == 'ext':
+        return SYM16 + comp + ['end{%s}' % env, '\\end' + env]
     raise ValueError(alpha)
 
 
@@ -87,6 +88,9 @@ def a_nodename(kind):
     return kind if kind.startswith('verbatim') else 'verb'
 
 
+_ADDR = re.compile(r'at 0x[0-9a-f]+')
+
+
 def plain(x):
     """DOM Text / Token objects are str subclasses that drag the whole document along"""
     return x.encode('utf-8', 'surrogatepass').decode('utf-8', 'surrogatepass')
@@ -113,7 +117,7 @@ def a_observe(kind, d, bodies):
         if not kind.startswith('verbatim'):
             for n in nodes:
                 try:
-                    srcs.append(plain(str(n.source)))
+                    srcs.append(_ADDR.sub('at 0x?', plain(str(n.source))))
                 except Exception as e:
                     srcs.append('raises:%s' % type(e).__name__)
         return [plain(c) for c in contents], plain(doc.textContent), len(doc.context.contexts), srcs
@@ -145,15 +149,19 @@ def a_judge(kind, d, body):
                 return 'known', FID_DELIM, exp, obs, ('opening delimiter %r tokenized with its normal category; the closing '
                                                       'one (category 12) never matches: content runs to end of input' % d)
             return 'violation', None, exp, obs, 'differs from strict oracle and from the prediction of ' + FID_DELIM
-        if d == '{' and '}' not in body:
+        if d == '{':
             cut = rest[:rest.index('}')] if '}' in rest else rest
-            pred = ([cut], HEAD_TXT + cut, 2)
-            if not isinstance(obs, str) and tuple(obs[:3]) == pred:
+            if '}' not in body:
+                pred = ([cut], HEAD_TXT + cut, 2)
+                good = not isinstance(obs, str) and tuple(obs[:3]) == pred
+            else:       # closed inside the body: the rest of the body is executed (not modelled)
+                good = isinstance(obs, str) or obs[0][:1] == [cut]
+            if good:
                 return 'known', FID_DELIM, exp, obs, 'opening { (normal category 1) is closed by the next } instead of the next {'
             return 'violation', None, exp, obs, 'differs from strict oracle and from the prediction of ' + FID_DELIM
         if d == '^' and body != '':
             return 'violation', None, exp, obs, 'content/tail/depth/source differ'
-        # d in '\\', '%', '}' (or '{' with } in body, or ^^y): the pre-read token is an escape sequence, a comment,
+        # d in '\\', '%', '}' (or ^^y): the pre-read token is an escape sequence, a comment,
         # a group end: the following input is then *executed*; not modelled
         return 'known', FID_DELIM, exp, obs, ('opening delimiter %r read under normal category codes (escape/comment/group '
                                               'token): input after it is interpreted, outcome not modelled' % d)
@@ -173,13 +181,13 @@ def a_bodies(block):
     _, kind, d, alpha, prefix, maxlen, minlen, must = block
     syms = a_alphabet(kind, d, alpha)
     full_end = '\\end{%s}' % kind if kind.startswith('verbatim') else None
-    mustsym = syms[-1] if must else None
+    mustsyms = syms[-2:] if must else None
     pre = ''.join(syms[k] for k in prefix)
     for L in range(max(minlen, len(prefix)), maxlen + 1):
         for tail in itertools.product(range(len(syms)), repeat=L - len(prefix)):
             tup = tuple(prefix) + tail
             body = pre + ''.join([syms[k] for k in tail])
-            if mustsym is not None and mustsym not in body:
+            if mustsyms is not None and mustsyms[0] not in body and mustsyms[1] not in body:
                 continue
             yield tup, body, syms, full_end
 
@@ -233,10 +241,10 @@ def a_run_block(block):
         if len(batch) >= BATCH:
             flush()
             if rep.nviolations >= ABANDON:
-                rep.count('blocks_abandoned_after_%d_violations' % ABANDON)
-                del batch[:]
                 break
     flush()
+    if rep.nviolations >= ABANDON:
+        rep.count('blocks_abandoned_after_%d_violations' % ABANDON)
     return rep.close_block()
 
 
@@ -640,16 +648,17 @@ def run(tier, seed, rep):
     bounds['a_delimiters'] = {'delimiters': len(DELIMS), 'max_len': Ld, 'forms': ['\\verb', '\\verb*']}
     Le = 3 if quick else 4
     for kind in ('verbatim', 'verbatim*'):
-        n = len(a_alphabet(kind, '', 'endcmd'))
+        n = len(a_alphabet(kind, '', 'ext'))
         if Le <= 3:
             for k in range(n):
-                blocks.append(('a', kind, '', 'endcmd', (k,), Le, 1, True))
+                blocks.append(('a', kind, '', 'ext', (k,), Le, 1, True))
         else:
-            blocks.append(('a', kind, '', 'endcmd', (n - 1,), 1, 1, True))
+            blocks.append(('a', kind, '', 'ext', (n - 1,), 1, 1, True))
+            blocks.append(('a', kind, '', 'ext', (n - 2,), 1, 1, True))
             for k1 in range(n):
                 for k2 in range(n):
-                    blocks.append(('a', kind, '', 'endcmd', (k1, k2), Le, 2, True))
-    bounds['a_command_form_end_marker'] = {'symbols': 21, 'max_len': Le, 'must_contain': '\\end<env>'}
+                    blocks.append(('a', kind, '', 'ext', (k1, k2), Le, 2, True))
+    bounds['a_extended_alphabet'] = {'symbols': 22, 'max_len': Le, 'must_contain': 'end{NAME} or \\endNAME'}
 
     # ---- (b)
     D = 3 if quick else 4
@@ -676,7 +685,7 @@ RULE = ('(a) bodies = strings over 16 characters (\\ { } % # & $ ^ ~ blank newli
         'string once (longest-match spelling), never containing the full end delimiter, as body of verbatim, verbatim*, '
         '\\verb|..| and \\verb*|..|; length L+1 over a reduced 8+4 alphabet for verbatim and \\verb; every other printable '
         'non-letter delimiter (40) for \\verb and \\verb* with all bodies of length <= 2 (3) not containing it; bodies of '
-        'length <= 3 (4) containing the command form \\endNAME. Observed: node.textContent, text after the construct '
+        'length <= 3 (4) over the alphabet extended by end{NAME} (no escape character) and the command form \\endNAME that contain one of the two. Observed: node.textContent, text after the construct '
         '(x--..y--%c: dash ligature applied, comment skipped), context depth, verb.source. (b) formula trees of depth '
         '<= 3 (4): 9 leaves, 9 unary and 6 binary operators (binary: all leaf pairs at depth 2, deeper one full child and '
         'one representative sibling, both orders) in $ $, \\( \\), \\[ \\], equation, \\textbf{..$ $..} (and $$ $$ to depth 3); '
